@@ -29,6 +29,8 @@ def run(res, rng, tier, model_ok, replay=None):
             idents, kind, idx, nuniq = gen.assign_ids(rng, len(sigs))
             hdr = gen.header_text(rng, sigs, idents)
             body = gen.body_text(rng, sigs, idents, steps, imp, rng.choice(["mixed", "crlf", "plain"]))
+            if rng.random() < 0.3 and body.strip():
+                body = body.rstrip(b" \t\r\n")      # the file ends directly after its last token
             table, out = gen.expected_obs(sigs, steps, imp)
             exp = gen.obs_string(table, out, idx)
             sarg = gen.sigs_arg(sigs, kind, idx, nuniq, idents)
